@@ -115,6 +115,17 @@ theorem F_congr (X : List Name) {E E' : List Name} (h : ∀ v, v ∈ E ↔ v ∈
   intro x _
   simp only [h x]
 
+/-- members of `E` that are intervened on do not matter -/
+theorem F_congr_mod (X : List Name) {E E' : List Name} (h : ∀ v, v ∉ X → (v ∈ E ↔ v ∈ E')) :
+    F M G X E = F M G X E' := by
+  unfold F
+  congr 1
+  apply List.filter_congr
+  intro x _
+  by_cases hx : x ∈ X
+  · simp [hx]
+  · simp only [h x hx]
+
 theorem F_pos (hM : M.Compatible G) (X E : List Name) (σ : Val) : 0 < F M G X E σ :=
   Scm.sumVars_pos _ _ _ (fun x _ => hM.card_pos x)
     (fun τ => Scm.Q_pos hM _ (fun _ hv => (List.mem_filter.mp hv).1) τ) σ
